@@ -6,7 +6,7 @@
 (* (an operation whose end ticket precedes another's start ticket comes    *)
 (* first) and explains every returned old value and the final memory -     *)
 (* the abstract semantics of Atomics.tla, one atomic step per operation.   *)
-(* IOEnv.TRACE: lines [h, id, t, k, op, a, v, e, old, tb, te] and per      *)
+(* IOEnv.TRACE: lines [h, id, t, k, op, a, v, e, old, tb, te, mod] and per *)
 (* history a line [h, op |-> "final", mem |-> <<[a, v]>>].                 *)
 (***************************************************************************)
 EXTENDS Naturals, Integers, FiniteSets, Sequences, TLC, Json, IOUtils
@@ -26,8 +26,8 @@ CanGo(i) == /\ i \in Pending
 Apply(i) == LET o == Recs[i] old == Cell(o.a) IN
             CASE o.op = "load" -> mem
               [] o.op = "store" -> SetF(mem, o.a, o.v)
-              [] o.op = "add" -> SetF(mem, o.a, (old + o.v) % 1073741824)
-              [] o.op = "sub" -> SetF(mem, o.a, (old + 1073741824 - o.v) % 1073741824)
+              [] o.op = "add" -> SetF(mem, o.a, (old + o.v) % o.mod)
+              [] o.op = "sub" -> SetF(mem, o.a, (old + o.mod - o.v) % o.mod)
               [] o.op = "or" -> SetF(mem, o.a, old + o.v)              \* operands are bits not yet set (driver's choice)
               [] o.op = "xchg" -> SetF(mem, o.a, o.v)
               [] o.op = "cmpxchg" -> IF old = o.e THEN SetF(mem, o.a, o.v) ELSE mem
